@@ -13,6 +13,9 @@ pub const NAMES_ADV: &[&str] = &[
     "a", "b", "0", "1", "-1", "00", "", " ", "/", "~", "~0", "~1", "a/b", "a~1b", "'", "''", "'a'",
     "a'b", "\"", "\"a\"", "\\", "\\\\", "x\\y", "\n", "\t", "\u{1}", "\u{b}", "\u{1f}", "\u{7f}",
     "é", "\u{1F600}", "a.b", "[0]", "$", "@", "*", "/a", "a/", "~a", "01", "2",
+    // invisible, private-use, non-BMP and line-separator characters (none is escaped in a Normalized Path)
+    "\u{F0000}", "\u{F000}0", "\u{E0041}", "\u{200B}", "a\u{301}", "\u{FEFF}", "\u{10FFFF}", "\u{1D173}", "\u{E000}", "\u{2028}", "\u{85}", "\u{FFFD}",
+    "A", "a ", "Ab",
 ];
 
 /// Names for C15: plain ones plus names that carry quote characters (never both kinds, no backslash),
